@@ -80,7 +80,7 @@ pub fn write_frame(Tracked(out): Tracked<&mut Written>, w: &mut BufWriter, l: &L
 pub mod fs { use super::*; verus! {
     #[verifier::external_body] pub fn create_dir_all(p: &PathBuf) -> Result<(), IoError> { unimplemented!() }
     #[verifier::external_body] pub fn remove_file<P>(p: P) -> Result<(), IoError> { unimplemented!() }
-    #[verifier::external_body] pub fn rename(a: PathBuf, b: PathBuf) -> Result<(), IoError> { unimplemented!() }
+    #[verifier::external_body] pub fn rename<A, B>(a: A, b: B) -> Result<(), IoError> { unimplemented!() }
 } }
 pub struct SeqSeekIndexEntryV1 { pub filler: u8 }
 impl SeqSeekIndexEntryV1 { #[verifier::external_body] pub fn new(seq: u64, offset: u64) -> SeqSeekIndexEntryV1 { unimplemented!() } }
@@ -94,6 +94,69 @@ impl SidecarIndexBuilderV1 {
 #[verifier::external_body] pub fn rebuild_message_index_from_sidecar_v1(sidecar: &PathBuf, idx: &PathBuf) -> Result<(), IoError> { unimplemented!() }
 #[verifier::external_body] pub fn rebuild_message_ordinal_index_from_events_v1(p: &PathBuf, id: &str, events: &[Event]) -> Result<(), IoError> { unimplemented!() }
 #[verifier::external_body] pub fn rebuild_compaction_checkpoint_index_from_events_v1(p: &PathBuf, id: &str, events: &[Event]) -> Result<(), IoError> { unimplemented!() }
+
+// ---- the two rebuilds that read the FULL sidecar file back (lazy rebuild of a derived sidecar that is missing) -----------------------
+// Lines as byte strings: `raw_lines_of(path)` = the raw lines of the file in order (each with its terminator), `stripped` = a line
+// without its terminator (strip_line_terminator, proved in c04_scan), `header_of` = the header serde decodes from a line.
+pub type Path = PathBuf;
+pub type IoResult<T> = Result<T, IoError>;
+pub mod io {
+    pub use super::IoError as Error;
+    pub use super::IoResult as Result;
+    use vstd::prelude::*;
+    verus! {
+    pub enum ErrorKind { InvalidData, Other }
+    impl Error { #[verifier::external_body] pub fn new<E>(kind: ErrorKind, e: E) -> Error { unimplemented!() } }
+    } // verus!
+}
+//@@ item crates/ripd/src/continuity_stream_cache.rs struct SidecarEventHeader
+pub uninterp spec fn raw_lines_of(p: PathBuf) -> Seq<Seq<u8>>;
+pub uninterp spec fn stripped(raw: Seq<u8>) -> Seq<u8>;
+pub uninterp spec fn header_of(line: Seq<u8>) -> SidecarEventHeader;
+pub open spec fn wanted_type(t: Seq<char>, which: int) -> bool {
+    (which == 1 && (t == "continuity_message_appended"@ || t == "continuity_run_ended"@)) || (which == 2 && t == "continuity_compaction_checkpoint_created"@)
+}
+pub open spec fn kept_lines(raw: Seq<Seq<u8>>, which: int) -> Seq<Seq<u8>>
+    decreases raw.len()
+{
+    if raw.len() == 0 { Seq::empty() } else {
+        let rest = kept_lines(raw.drop_last(), which);
+        let l = stripped(raw.last());
+        if l.len() > 0 && wanted_type(header_of(l).event_type@, which) { rest.push(l) } else { rest }
+    }
+}
+pub tracked struct WrittenLines { pub ghost lines: Seq<Seq<u8>> }
+pub struct RFile { pub of: Ghost<Seq<Seq<u8>>>, pub filler: u8 }
+#[verifier::external_body] pub fn open_file(p: &PathBuf) -> (r: IoResult<RFile>) ensures r matches Ok(f) ==> f.of@ == raw_lines_of(*p) { unimplemented!() }
+pub struct BufReader { pub filler: u8 }
+impl BufReader {
+    pub uninterp spec fn rest(&self) -> Seq<Seq<u8>>;      // the raw lines not yet read
+    #[verifier::external_body] pub fn new(f: RFile) -> (r: BufReader) ensures r.rest() == f.of@ { unimplemented!() }
+    // BufRead::read_until(b'\n', buf): appends the next raw line; 0 at the end of the file
+    #[verifier::external_body] pub fn read_until(&mut self, delim: u8, buf: &mut Vec<u8>) -> (r: IoResult<usize>)
+        ensures r matches Ok(n) ==> (
+            if old(self).rest().len() == 0 { n == 0 && final(self).rest() == old(self).rest() && final(buf)@ == old(buf)@ }
+            else { n > 0 && final(buf)@ == old(buf)@ + old(self).rest()[0] && final(self).rest() == old(self).rest().drop_first() }),
+    { unimplemented!() }
+}
+#[verifier::external_body] pub fn strip_line_terminator(buf: &mut Vec<u8>) -> (r: &[u8]) ensures r@ == stripped(old(buf)@) { unimplemented!() }
+#[verifier::external_body] pub fn header_from_slice(line: &[u8]) -> (r: Result<SidecarEventHeader, SerdeError>) ensures r matches Ok(h) ==> h == header_of(line@) { unimplemented!() }
+// `writer.write_all(line)` on the derived sidecar's writer
+#[verifier::external_body]
+pub fn write_line(Tracked(out): Tracked<&mut WrittenLines>, w: &mut BufWriter, l: &[u8]) -> (r: IoResult<()>)
+    ensures final(out).lines == old(out).lines.push(l@),
+{ unimplemented!() }
+#[verifier::external_body] pub fn rebuild_messages_runs_seek_index_best_effort_v1(sidecar: &PathBuf, seek: &PathBuf) -> IoResult<()> { unimplemented!() }
+#[verifier::external_body] pub fn rebuild_message_index_from_sidecar_io(sidecar: &PathBuf, idx: &PathBuf) -> IoResult<()> { unimplemented!() }
+pub proof fn lemma_kept_lines_step(all: Seq<Seq<u8>>, k: int, which: int)
+    requires 0 <= k < all.len(),
+    ensures kept_lines(all.subrange(0, k + 1), which) == {
+        let l = stripped(all[k]);
+        if l.len() > 0 && wanted_type(header_of(l).event_type@, which) { kept_lines(all.subrange(0, k), which).push(l) } else { kept_lines(all.subrange(0, k), which) } },
+{
+    assert(all.subrange(0, k + 1).drop_last() =~= all.subrange(0, k));
+    assert(all.subrange(0, k + 1).last() == all[k]);
+}
 
 pub struct ContinuityStreamCache { pub dir: PathBuf }
 impl ContinuityStreamCache {
@@ -179,6 +242,55 @@ impl ContinuityStreamCache {
         }
     //@@ afterloop 0
         proof { assert(events@.subrange(0, __i0 as int) =~= events@); }
+    //@@ end
+
+    //@@ fn crates/ripd/src/continuity_stream_cache.rs ContinuityStreamCache::rebuild_compaction_checkpoints_from_full_sidecar_best_effort_v1 attr=verifier::exec_allows_no_decreases_clause
+    //@@ alias serde_json::from_slice header_from_slice
+    //@@ alias File::open open_file
+    //@@ rewrite &str ==>> &str, Tracked(out): Tracked<&mut WrittenLines>
+    //@@ rewrite writer.write_all(line)? ==>> write_line(Tracked(&mut *out), &mut writer, line)?
+    //@@ rewrite b"\n" ==>> nl_bytes()
+    //@@ sig
+        requires old(out).lines.len() == 0,
+        ensures ret is Ok ==> final(out).lines == kept_lines(raw_lines_of(*full_sidecar_path), 2),      // [rebuild_from_full_sidecar.checkpoint_sidecar_holds_exactly_the_checkpoint_lines_of_the_full_sidecar_in_order]
+    //@@ loop 0
+        invariant
+            reader.rest().len() <= raw_lines_of(*full_sidecar_path).len(),
+            reader.rest() == raw_lines_of(*full_sidecar_path).subrange(raw_lines_of(*full_sidecar_path).len() - reader.rest().len(), raw_lines_of(*full_sidecar_path).len() as int),
+            out.lines == kept_lines(raw_lines_of(*full_sidecar_path).subrange(0, raw_lines_of(*full_sidecar_path).len() - reader.rest().len()), 2),
+        ensures reader.rest().len() == 0,
+    //@@ loopbody 0
+        broadcast use group_string_eq;
+        let ghost all = raw_lines_of(*full_sidecar_path);
+        let ghost k = all.len() - reader.rest().len();
+        proof { if reader.rest().len() > 0 { lemma_kept_lines_step(all, k, 2); assert(reader.rest()[0] == all[k]); assert(reader.rest().drop_first() =~= all.subrange(k + 1, all.len() as int)); } }
+    //@@ afterloop 0
+        proof { assert(raw_lines_of(*full_sidecar_path).subrange(0, raw_lines_of(*full_sidecar_path).len() as int) =~= raw_lines_of(*full_sidecar_path)); }
+    //@@ end
+
+    //@@ fn crates/ripd/src/continuity_stream_cache.rs ContinuityStreamCache::rebuild_messages_runs_from_full_sidecar_best_effort_v1 attr=verifier::exec_allows_no_decreases_clause
+    //@@ alias serde_json::from_slice header_from_slice
+    //@@ alias File::open open_file
+    //@@ alias rebuild_message_index_from_sidecar_v1 rebuild_message_index_from_sidecar_io
+    //@@ rewrite &str ==>> &str, Tracked(out): Tracked<&mut WrittenLines>
+    //@@ rewrite writer.write_all(line)? ==>> write_line(Tracked(&mut *out), &mut writer, line)?
+    //@@ rewrite b"\n" ==>> nl_bytes()
+    //@@ sig
+        requires old(out).lines.len() == 0,
+        ensures ret is Ok ==> final(out).lines == kept_lines(raw_lines_of(*full_sidecar_path), 1),      // [rebuild_from_full_sidecar.messages_runs_sidecar_holds_exactly_the_message_and_run_ended_lines_of_the_full_sidecar_in_order]
+    //@@ loop 0
+        invariant
+            reader.rest().len() <= raw_lines_of(*full_sidecar_path).len(),
+            reader.rest() == raw_lines_of(*full_sidecar_path).subrange(raw_lines_of(*full_sidecar_path).len() - reader.rest().len(), raw_lines_of(*full_sidecar_path).len() as int),
+            out.lines == kept_lines(raw_lines_of(*full_sidecar_path).subrange(0, raw_lines_of(*full_sidecar_path).len() - reader.rest().len()), 1),
+        ensures reader.rest().len() == 0,
+    //@@ loopbody 0
+        broadcast use group_string_eq;
+        let ghost all = raw_lines_of(*full_sidecar_path);
+        let ghost k = all.len() - reader.rest().len();
+        proof { if reader.rest().len() > 0 { lemma_kept_lines_step(all, k, 1); assert(reader.rest()[0] == all[k]); assert(reader.rest().drop_first() =~= all.subrange(k + 1, all.len() as int)); } }
+    //@@ afterloop 0
+        proof { assert(raw_lines_of(*full_sidecar_path).subrange(0, raw_lines_of(*full_sidecar_path).len() as int) =~= raw_lines_of(*full_sidecar_path)); }
     //@@ end
 }
 
